@@ -176,6 +176,8 @@ pub struct Net {
     pub next_id: usize,
     /// every datagram ever put on the wire by a node (the tap)
     pub tap: Vec<Dgram>,
+    /// datagrams sent to addresses outside the simulated nodes (multicast groups): recorded, delivered nowhere
+    pub far: Vec<Dgram>,
     /// slow network sends: (node, ordinal of the send call of that node (0-based), duration in ms) - the call
     /// returns, and the datagram reaches the wire, only after that time
     pub slow: Vec<(usize, usize, u64)>,
@@ -240,6 +242,7 @@ impl NetworkSend for Tx {
         n.next_id += 1;
         let d = Dgram { id, seq: next_seq(), src: self.1, dst: idx(&a), data: data.to_vec(), t_ms: t_call };
         if d.dst == usize::MAX {
+            n.far.push(d);
             return Ok(());
         }
         n.tap.push(d.clone());
@@ -289,6 +292,8 @@ pub struct KvState {
     /// fail (return an error, apply nothing) the mutating operation with this ordinal (0-based)
     pub fail_at: Option<usize>,
     pub n_mut: usize,
+    /// every applied store with its position in the global order of observable events: (seq, key, data)
+    pub store_seqs: Vec<(usize, u16, Vec<u8>)>,
 }
 
 pub type KvRef = Rc<RefCell<KvState>>;
@@ -341,6 +346,7 @@ impl KvBlobStore for RecKv {
         }
         s.blobs.insert(key, data.to_vec());
         s.log.push((now_ms(), KvOp::Store(key, data.to_vec())));
+        s.store_seqs.push((next_seq(), key, data.to_vec()));
         Ok(())
     }
     fn remove(&mut self, key: u16, _buf: &mut [u8]) -> Result<(), Error> {
